@@ -282,6 +282,9 @@ def gate(R):
          'a ParseError thrown into ProxyParser.parse while it awaits the header block is not converted to ProxyFail',
          func=q2, node=None, construct='ProxyParser ParseError conversion')
     C10.limit(R, RID='C19.gate', recv='proxy.ProxyParser')
+    from . import C09
+    C09.proxyread(R, RID='C19.gate')
+    statusline(R)
     # EOF: Parser.feed raises on empty data
     q3 = 'parser.Parser.feed'
     g3 = R.cfg(q3, 'proxy.ProxyParser')
@@ -340,3 +343,48 @@ def order(R):
         and not any(m is g.raise_exit for (m, l) in cn.succ if l.startswith('exc:'))
     R.ob('C19.order', 'every _connect failure yields ConnectFail', okf and all_paths_pass(g, exc_succ, ys, [g.exit]),
          'a failure inside _connect() does not end in a ConnectFail event', func=S + '.run', node=cc[0][1])
+
+
+def statusline(R, RID='C19.gate'):
+    """The status code the 200-test looks at is parsed from the *bytes* of the status line: bytes.split(None) / int(bytes)
+    treat only the six ASCII blanks as white space, whereas str.split(None) and int(str) also accept the control
+    characters 0x1c-0x1f (and, in general, Unicode spaces and digits) - decoding the line before tokenising it lets a
+    garbage status line pass for `HTTP/1.1 200 OK`."""
+    q = 'response.Response.__init__'
+    f = R.func(q)
+    g = R.cfg(q)
+    rd = ReachingDefs(g)
+    pi = R.prog.find_method('proxy.ProxyResponse', '__init__')
+    R.ob(RID, 'ProxyResponse parses with Response.__init__', pi is not None and pi.qual == q,
+         'ProxyResponse.__init__ is %s' % (pi.qual if pi else None), func=q, node=None, construct='ProxyResponse parser')
+    st = [n for n in g.live_nodes() if n.kind == 'stmt' and isinstance(n.ast, ast.Assign)
+          and any(U(t) == 'self.status_code' for t in n.ast.targets) and isinstance(n.ast.value, ast.Call)]
+    need(len(st) == 1, 'Response.__init__: status_code = int(...) not found')
+    n = st[0]
+
+    def decoded(node, e, depth=6, seen=None):
+        seen = seen if seen is not None else set()
+        for x in walk_no_nested(e):
+            if isinstance(x, ast.Call) and isinstance(x.func, ast.Attribute) and x.func.attr == 'decode':
+                return x
+            if isinstance(x, ast.Call) and isinstance(x.func, ast.Name) and x.func.id in ('str', 'text_type'):
+                return x
+            if isinstance(x, ast.Name) and isinstance(x.ctx, ast.Load) and depth > 0:
+                for d in rd.defs_at(node, x.id):
+                    if (d.id, x.id) in seen or d is g.entry:
+                        continue
+                    seen.add((d.id, x.id))
+                    v = rd.value_of_def(d, x.id)
+                    if v is None and d.kind == 'stmt' and isinstance(d.ast, ast.Assign):
+                        v = d.ast.value
+                    if v is not None:
+                        r = decoded(d, v, depth - 1, seen)
+                        if r is not None:
+                            return r
+        return None
+    arg = n.ast.value.args[0] if n.ast.value.args else None
+    bad = decoded(n, arg) if arg is not None else None
+    R.ob(RID, 'status code parsed from the raw bytes', U(n.ast.value.func) == 'int' and arg is not None and bad is None,
+         'the status code is computed as %s from text produced by `%s`: str.split() / int(str) accept separators and digits '
+         'that are not ASCII blanks / digits, so a garbage status line can read as 200' % (U(n.ast.value), U(bad)),
+         func=f, node=n.ast, construct='status code from decoded text')
